@@ -18,7 +18,8 @@ import (
 type c11Case struct {
 	shellCfg
 	Buf     string `json:"buf"`     // shape of the buffer before leaving
-	Where   string `json:"where"`   // emacs | vi-insert | vi-command | visual
+	Where   string `json:"where"`   // emacs | vi-insert | vi-command | visual | operator-pending | vi-replace | arg-pending | emacs-arg-pending | register-pending
+	Pend    string `json:"pend,omitempty"` // operator-pending: the operator keys
 	Exit    string `json:"exit"`    // exit path
 	Termios string `json:"termios"` // initial termios variant
 	Editor  string `json:"editor"`
@@ -33,11 +34,12 @@ var c11Exits = []string{"accept-line", "accept-and-hold", "multiline-accept", "o
 func c11Gen(r *rand.Rand, tier string, idx int) any {
 	c := c11Case{}
 	c.W, c.H = 30+r.Intn(60), 14+r.Intn(20)
-	c.Where = pick(r, []string{"emacs", "emacs", "vi-insert", "vi-command", "visual"})
+	c.Where = pick(r, []string{"emacs", "emacs", "vi-insert", "vi-command", "visual", "operator-pending", "vi-replace", "arg-pending", "emacs-arg-pending", "register-pending"})
 	c.Mode = "emacs"
-	if c.Where != "emacs" {
+	if c.Where != "emacs" && c.Where != "emacs-arg-pending" {
 		c.Mode = "vi"
 	}
+	c.Pend = pick(r, []string{"d", "c", "y", "2d", "g~", "3c"})
 	c.Exit = c11Exits[idx%len(c11Exits)]
 	c.Termios = pick(r, []string{"cooked", "echo-off", "ixon-off", "odd-vmin-vtime", "cooked", "cbreak", "raw-like"})
 	if r.Intn(3) == 0 {
@@ -168,6 +170,21 @@ func c11Run(env *fw.Env, raw json.RawMessage) fw.Outcome {
 			add("v", "visual")
 			add("h", "motion")
 		}
+	case "operator-pending":
+		// an operator waiting for its motion when the key that leaves Readline arrives
+		add("\x1b", "esc")
+		add(c.Pend, "operator")
+	case "vi-replace":
+		add("\x1b", "esc")
+		add("R", "replace-mode")
+	case "arg-pending":
+		add("\x1b", "esc")
+		add("3", "count")
+	case "emacs-arg-pending":
+		add("\x1b4", "digit-argument")
+	case "register-pending":
+		add("\x1b", "esc")
+		add("\"a", "register")
 	}
 	var exit []sess.Step
 	insertCapable := c.Where == "emacs" || c.Where == "vi-insert"
@@ -211,7 +228,7 @@ func c11Run(env *fw.Env, raw json.RawMessage) fw.Outcome {
 		exit = []sess.Step{{EIO: true}}
 	}
 	res := s.Call(plan, exit)
-	ctx := fmt.Sprintf("exit=%s where=%s termios=%s earlier-call=%q buffer=%q back=%d W=%d", c.Exit, c.Where, c.Termios, c.Prior, clampStr(c.Buf, 40), c.Back, c.W)
+	ctx := fmt.Sprintf("exit=%s where=%s(%s) termios=%s earlier-call=%q buffer=%q back=%d W=%d", c.Exit, c.Where, c.Pend, c.Termios, c.Prior, clampStr(c.Buf, 40), c.Back, c.W)
 	o.O.Events++
 	panicked := res.Panic != "" && strings.Contains(res.Panic, "verif: bound command panics")
 	if !panicked && !stdFailures(&o, res, ctx) {
